@@ -114,6 +114,13 @@ func queueClose(capacity, buf, preload int, op string, bound int) *vsched.Scenar
 				case "take-timeout":
 					_, err := q.TakeWithTimeout(5 * time.Millisecond)
 					vsched.Event(tag, "take-timeout", errName(err))
+				case "take-timeout-zero", "take-timeout-negative":
+					d := time.Duration(0)
+					if op == "take-timeout-negative" {
+						d = -time.Second
+					}
+					_, err := q.TakeWithTimeout(d)
+					vsched.Event(tag, op, errName(err))
 				case "poll":
 					_, err := q.Poll()
 					vsched.Event(tag, "poll", errName(err))
@@ -154,7 +161,7 @@ func queueClose(capacity, buf, preload int, op string, bound int) *vsched.Scenar
 				res := fmt.Sprint(e.Args[1])
 				ok := false
 				switch op {
-				case "offer", "put", "take", "take-timeout", "poll":
+				case "offer", "put", "take", "take-timeout", "take-timeout-zero", "take-timeout-negative", "poll":
 					ok = res == "closed"
 				case "channel":
 					// the channel is closed: a receive reports it (items left behind may still be drained)
@@ -375,7 +382,7 @@ func scenarios(tier string) []*vsched.Scenario {
 	if tier == "thorough" {
 		out = append(out, mailboxClose("handler", 2, 3, false, 2), mailboxClose("actor", 2, 3, false, 2), mailboxClose("actor", 1, 3, true, 2))
 	}
-	ops := []string{"offer", "put", "take", "take-timeout", "poll", "channel", "count"}
+	ops := []string{"offer", "put", "take", "take-timeout", "take-timeout-zero", "take-timeout-negative", "poll", "channel", "count"}
 	type cfg struct{ c, b, pre int }
 	cfgs := []cfg{{1, 1, 0}, {1, 1, 2}, {0, 1, 1}}
 	if tier == "thorough" {
